@@ -19,10 +19,12 @@ import (
 	"pgregory.net/rapid"
 
 	"github.com/free5gc/go-upf/internal/forwarder"
+	"github.com/free5gc/go-upf/internal/logger"
 	"github.com/free5gc/go-upf/internal/report"
 	"github.com/free5gc/go-upf/internal/verif/fullstack"
 	"github.com/free5gc/go-upf/internal/verif/stack"
 	"github.com/free5gc/go-upf/internal/verif/vcore"
+	"github.com/free5gc/go-upf/pkg/app"
 	"github.com/free5gc/go-upf/pkg/factory"
 )
 
@@ -30,7 +32,7 @@ func TestMain(m *testing.M) {
 	vcore.Init("C20", "exploration",
 		"from a valid YAML document: every single fault exhaustively (each field deleted, emptied, key mistyped, value of the wrong structural type, out of range, each enumerated alternative), rapid multi-faults (2-5), list sizes 0-3, valid variants (log levels, N3/N9, MTU, several DNNs, host names); "+
 			"module version strings x.y.z with x in 0..2, y,z in 0..12 exhaustively plus random components up to 10^6. "+
-			"Oracle: never (nil,nil) and never a configuration together with an error; whatever ReadConfig returns as accepted must satisfy an independently written validity predicate over the returned struct "+
+			"accepted configurations are also handed to app.NewApp and the configuration the application then holds is compared the same way; Oracle: never (nil,nil) and never a configuration together with an error; whatever ReadConfig returns as accepted must satisfy an independently written validity predicate over the returned struct "+
 			"(version 1.0.3, PFCP address is a host, node id a host resolving for IPv4, non-zero retransmission timeout, forwarder gtp5g, interface entries with host address and type N3/N9, >= 1 DNN each with name and valid CIDR, log level in the list) "+
 			"and every value present in the document must appear unchanged; documents valid by construction must be accepted; documents in which a required element is missing, empty, structurally mistyped or out of range must be rejected. "+
 			"The version check runs through the real checkVersion against a simulated GET_VERSION reply: success iff (0,9,5) <= (x,y,z) < (0,10,0). NewDriver must return an error and no driver for any forwarder other than gtp5g. "+
@@ -552,6 +554,30 @@ func check(d doc, c *Case) *vcore.Violation {
 		}
 		if why := mustReject(d); why != "" {
 			return vcore.Violatef("accepted-defective", "document with a defective required element (%s) was accepted", why)
+		}
+		// the running configuration is the one the application object holds once it has been set up from the file
+		lvl := logger.Log.GetLevel()
+		upf, aerr := func() (u *app.UpfApp, err error) {
+			defer func() {
+				if p := recover(); p != nil {
+					err = fmt.Errorf("panic: %v", p)
+				}
+			}()
+			return app.NewApp(cfg)
+		}()
+		logger.Log.SetLevel(lvl) // the process-wide logger is the harness's as well
+		if aerr != nil {
+			return vcore.Violatef("app-rejects-accepted", "NewApp refuses a configuration ReadConfig accepted: %v", aerr)
+		}
+		if rc := upf.Config(); rc == nil {
+			return vcore.Violatef("value-changed", "the application holds no configuration after NewApp")
+		} else {
+			if why := unchanged(d, rc); why != "" {
+				return vcore.Violatef("value-changed", "running configuration (after NewApp) differs from the document at %s", why)
+			}
+			if why := validCfg(rc); why != "" {
+				return vcore.Violatef("accepted-invalid", "running configuration (after NewApp) is not valid: %s", why)
+			}
 		}
 	} else if c.MustAccept {
 		return vcore.Violatef("valid-rejected", "document valid by construction rejected: %v", rerr)
